@@ -18,6 +18,8 @@ func main() {
 	tier := flag.String("tier", "quick", "quick|thorough")
 	root := flag.String("root", "/verif", "verif root (evidence, known findings)")
 	list := flag.Bool("list", false, "list registered properties")
+	mutantID := flag.String("mutant", "", "internal (thorough tier): analyse the tree with this catalogued mutation applied as an overlay")
+	catalogue := flag.String("catalogue", "", "internal: root holding selfcheck/ when -mutant is given")
 	flag.Parse()
 	if *list {
 		ids := props.IDs()
@@ -41,7 +43,37 @@ func main() {
 				code = r.Abort(fmt.Sprintf("checker panic: %v", e))
 			}
 		}()
-		prog, err := load.Load(p.NeedDeps, nil)
+		var overlay map[string][]byte
+		if *mutantID != "" {
+			ms, err := loadMutants(*catalogue, *prop)
+			if err != nil {
+				fmt.Printf("MUTANT-NOBUILD %v\n", err)
+				code = 3
+				return
+			}
+			for i := range ms {
+				if ms[i].ID == *mutantID {
+					ov, stale, err := overlayFor(&ms[i])
+					if err != nil || stale != "" {
+						fmt.Printf("MUTANT-STALE %s %v\n", stale, err)
+						code = 3
+						return
+					}
+					overlay = ov
+				}
+			}
+			if overlay == nil {
+				fmt.Printf("MUTANT-STALE not in catalogue\n")
+				code = 3
+				return
+			}
+		}
+		prog, err := load.Load(p.NeedDeps, overlay)
+		if err != nil && *mutantID != "" {
+			fmt.Printf("MUTANT-NOBUILD %v\n", err)
+			code = 3
+			return
+		}
 		if err != nil {
 			fmt.Printf("UNDECIDED property=%s reason=load failed: %v\n", *prop, err)
 			code = r.Abort(fmt.Sprintf("load failed: %v", err))
@@ -49,6 +81,9 @@ func main() {
 		}
 		r.Count("packages", len(prog.Pkgs))
 		p.Run(&props.Ctx{P: prog, R: r, Tier: *tier})
+		if *tier == "thorough" && *mutantID == "" {
+			selfValidate(r, *prop, *root)
+		}
 		code = r.Finish()
 	}()
 	os.Exit(code)
